@@ -54,6 +54,14 @@ func ivPermutation(a edit.Applied) bool {
 	return moved
 }
 
+// ivPermutationText: the same test on the two complete declarations (an edit that reorders two
+// statements which differ only in the loop variable they use IS an exchange of those two
+// variables; the edit record itself only holds a clipped excerpt of the block).
+func ivPermutationText(p, q string) bool {
+	norm := func(s string) string { return strings.Join(strings.Fields(s), " ") }
+	return ivPermutation(edit.Applied{Before: norm(p), After: norm(q)})
+}
+
 func detail(a edit.Applied) string {
 	k := a.Kind
 	if ivPermutation(a) {
@@ -190,6 +198,10 @@ func batch(res *evid.Result, bi int, root string) {
 			res.Count("pairs_separated", 1)
 			res.Count("separated:"+ed.Kind, 1)
 			res.Distinct(ed.Kind + "|" + strings.Join(fn.Tags, ","))
+			kindKey := detail(ed)
+			if ivPermutationText(fn.Text, v.File.Funcs[gi].Text) {
+				kindKey = "iv-loop-identity/exchanged-loop-variables"
+			}
 			witness := func() map[string]any {
 				return map[string]any{"function": fn.Name, "edit": ed, "input": nexec.InputDesc(fn.Sig, vec), "observed_P": oa, "observed_Q": ob, "P": fn.Text, "Q": v.File.Funcs[gi].Text, "batch": bi}
 			}
@@ -208,10 +220,10 @@ func batch(res *evid.Result, bi int, root string) {
 					if pol == "default" {
 						// the difference may still be due only to literals the default policy abstracts
 						// (e.g. a negated test whose two branches differ in a string): decided by execution
-						defaultCollisions = append(defaultCollisions, pending{fn.Name, "collision/" + pol + "/" + detail(ed), what, witness()})
+						defaultCollisions = append(defaultCollisions, pending{fn.Name, "collision/" + pol + "/" + kindKey, what, witness()})
 						break
 					}
-					res.Violate("collision/"+pol+"/"+detail(ed), what, witness())
+					res.Violate("collision/"+pol+"/"+kindKey, what, witness())
 					break // the default policy abstracts more: one report per pair
 				}
 			}
